@@ -326,7 +326,8 @@ def make_steps(job, ctl=None):
     vclass = {name_of(i + 1): c for i, c in enumerate(job.get("vclass") or []) if c}
     if job.get("family") == "values":
         payloads = {name_of(i + 1): payload_of(i + 1) for i in range(n)}
-        return A.c14_vload(plan, vclass, payloads, **sched) + A.c14_v1(plan, vclass, payloads) + A.c14_v2(plan, vclass, payloads)
+        step3 = A.STEP3[job.get("step3") or "typed"]
+        return A.c14_vload(plan, vclass, payloads, **sched) + A.c14_v1(plan, vclass, payloads) + step3(plan, vclass, payloads)
     return A.c14_load(plan, vclass=vclass, **sched) + A.c14_g1(plan, vclass=vclass) + A.c14_g2(plan, vclass=vclass)
 
 
